@@ -1,9 +1,11 @@
 // Client lives: the REAL gnet.Client through its public API against a plain Go peer.
 // op:  clife <proto tcp|unix|udp> <loops> <ticker> <nconn> <mode> <et>
 // mode: stop       - Client.Stop with all connections still open
-//       peerclose  - the peer closes every second connection first
-//       localclose - the driver calls Close() on every second connection first
-//       wake       - Wake on a quiet connection must give exactly one OnTraffic
+//
+//	peerclose  - the peer closes every second connection first
+//	localclose - the driver calls Close() on every second connection first
+//	wake       - Wake on a quiet connection must give exactly one OnTraffic
+//
 // The reply is the coarse trace (same tokens as server lives; Stop returning = runreturn).
 package main
 
@@ -402,7 +404,7 @@ func runClientLife(ws []string) string {
 			util.Fail(fmt.Sprintf("client: Wake refused: %v", err))
 		}
 		settle(3*time.Second, func() bool { s.mu.Lock(); defer s.mu.Unlock(); return h.traffic[x.k] > before }) // robust under load
-		time.Sleep(40 * time.Millisecond)                                                                      // a second call would show up now
+		time.Sleep(40 * time.Millisecond)                                                                       // a second call would show up now
 		s.mu.Lock()
 		after := h.traffic[x.k]
 		s.mu.Unlock()
